@@ -64,12 +64,13 @@ class StructV(V):
     of private state now lives inside nested private structs (fields grouped into a sub-struct / wrapped in a newtype, see
     Facts._canonicalise_fields): `get` / `set` / `has` accept both kinds of name."""
 
-    def __init__(self, path, names, fields, targs=None, paths=None):
+    def __init__(self, path, names, fields, targs=None, paths=None, codecs=None):
         self.path = path
         self.names = names
         self.fields = fields
         self.targs = targs
         self.paths = paths
+        self.codecs = codecs    # canonical bool field held as a private two-variant enum: name -> {'enum', 'true', 'vnames'}
 
     def has(self, name):
         return name in self.names or bool(self.paths and name in self.paths)
@@ -80,9 +81,18 @@ class StructV(V):
             for i in self.paths[name]:
                 cur = cur.fields[i]
             return cur
-        return self.fields[self.names.index(name)]
+        v = self.fields[self.names.index(name)]
+        c = (self.codecs or {}).get(name)
+        if c and c.get('true') is not None and isinstance(v, EnumV) and v.variant is not None:
+            # the rules read the flag; the object holds one of two named states
+            return BoolV(bconst(v.variant == c['true']))
+        return v
 
     def set(self, name, v):
+        c = (self.codecs or {}).get(name)
+        if c and c.get('true') is not None and isinstance(v, BoolV) and v.b.value() is not None:
+            vi = c['true'] if v.b.value() else 1 - c['true']
+            v = EnumV(c['enum'], vi, {vi: []}, vnames=c['vnames'])
         if self.paths and name in self.paths:
             cur = self
             for i in self.paths[name][:-1]:
@@ -363,6 +373,14 @@ class Interp:
     def stub_for(self, path):
         if path in self.stubs:
             return self.stubs[path]
+        if self.stubs and path.startswith('<synth_utils::') and ' as synth_utils::' in path and '>::' in path:
+            # a method that moved into the impl of a private trait for the same type is still `Type::method` for the rules
+            from .facts import _tail
+            ty = _tail(path[1:].split(' as ')[0], 1).split('<')[0]
+            meth = path.rsplit('>::', 1)[1]
+            for k, f in self.stubs.items():
+                if k.startswith('synth_utils::') and _tail(k, 2).rsplit('::', 1)[0].split('<')[0] == ty and _tail(k, 1) == meth:
+                    return f
         if self.stubs and path.startswith('synth_utils::'):
             from .facts import _tail
             t = _tail(path, 2)
@@ -380,6 +398,52 @@ class Interp:
                 if k.startswith('synth_utils::') and _tail(k, 1) == t:
                     return f
         return inv
+
+    def bool_codecs(self, adt):
+        """flags the rules know as `bool` that the tree holds as a private two-variant enum (Facts._canonicalise_fields step c).  Which
+        variant means `true` is read from the code: the method of the same name as the flag (`finger_is_pressing()`,
+        `rolled_over()`) is evaluated on an object holding each variant; exactly one of them must return `true`.  No such method, or
+        no clear answer: no codec, and the rules fail closed on the missing flag as before."""
+        cc = (adt or {}).get('canon_codecs')
+        if not cc:
+            return None
+        for name, c in cc.items():
+            if 'true' in c:
+                continue
+            c['true'] = None
+            if getattr(self, 'no_frozen', False):
+                continue
+            meths = [p for p, f in self.facts.fns.items() if f.get('crate') == 'synth_utils' and p.endswith('::' + name) and f.get('arg_count') == 1
+                     and ((f.get('impl_of') or {}).get('self_ty') or {}).get('path') == adt['path'] and (f['locals'][0]['ty'] or {}).get('k') == 'bool']
+            if len(meths) != 1:
+                continue
+            answers = {}
+            for vi in (0, 1):
+                try:
+                    sub = Interp(self.facts, models=self.models, max_states=200)
+                    sub.no_frozen = True
+                    st = State()
+                    st.ctx.tables = self.facts.tables
+                    gen = {g['name']: Poly.const(8) for g in (adt.get('generics') or []) if g.get('kind') == 'const'}
+                    obj = sub.sym_value(st, {'k': 'adt', 'path': adt['path'], 'args': [{'const': {'int': '8'}} for g in (adt.get('generics') or [])]}, 'probe', None)
+                    obj.fields[obj.names.index(name)] = EnumV(c['enum'], vi, {vi: []}, vnames=c['vnames'])
+                    cell = st.new_cell(obj)
+                    loc1 = self.facts.fns[meths[0]]['locals'][1]['ty']
+                    arg = RefV(cell, (), True) if loc1.get('k') in ('ref', 'ptr') else obj
+                    outs = sub.run(sub.start(meths[0], [arg], state=st))
+                    vals = {o.ret.b.value() for o in outs if o.status == 'returned' and isinstance(o.ret, BoolV)}
+                    if len(vals) == 1 and all(o.status == 'returned' for o in outs):
+                        answers[vi] = vals.pop()
+                except (InterpError, KeyError, IndexError, TypeError, ValueError, AttributeError):
+                    pass
+            if answers.get(0) is False and answers.get(1) is True:
+                c['true'] = 1
+            elif answers.get(0) is True and answers.get(1) is False:
+                c['true'] = 0
+            if c['true'] is not None:
+                self.facts.field_aliases.setdefault(adt['path'], {})[name] = '%s (a %s: %s means true, read from %s())' % (
+                    c.get('actual_name', name), c['enum'].split('::')[-1], c['vnames'][c['true']], name)
+        return cc
 
     def apply_invariants(self, st, v):
         if isinstance(v, StructV):
@@ -500,7 +564,7 @@ class Interp:
                 names = [f['name'] for f in v['fields']]
                 fields = [self.sym_value(st, self.subst_ty(f['ty'], tenv), '%s.%s' % (name, f['name']), tenv, depth + 1)
                           for f in v['fields']]
-                sv = StructV(path, names, fields, targs=tenv, paths=adt.get('canon_paths'))
+                sv = StructV(path, names, fields, targs=tenv, paths=adt.get('canon_paths'), codecs=self.bool_codecs(adt))
                 for cn, pth in (adt.get('canon_paths') or {}).items():
                     # the relocated leaf gets the symbol name the rules know it by
                     lt = adt.get('canon_leaf_ty', {}).get(cn)
@@ -1345,7 +1409,7 @@ class Interp:
                 adt_ = self.facts.adts.get(rv['path'])
                 if adt_ and adt_.get('kind') == 'struct' and len(adt_['variants'][0]['fields']) == len(names):
                     names = [f['name'] for f in adt_['variants'][0]['fields']]   # canonical names (renamed private fields, sa/facts.py)
-                return StructV(rv['path'], names, fields, targs=tenv, paths=(adt_ or {}).get('canon_paths'))
+                return StructV(rv['path'], names, fields, targs=tenv, paths=(adt_ or {}).get('canon_paths'), codecs=self.bool_codecs(adt_))
             if agg == 'closure':
                 return ClosureV(rv['path'], fields)
             if agg == 'array':
@@ -1932,6 +1996,7 @@ class Interp:
 
     def switch(self, st, fr, t):
         st.ctx.origin = fr.fn['path']
+        st.ctx.origin_stack = tuple(f_.fn['path'] for f_ in st.frames)
         d = self.operand(st, fr, t['discr'])
         arms = [(int(a[0]), a[1]) for a in t['arms']]
         other = t['otherwise']
@@ -2097,6 +2162,7 @@ class Interp:
 
     def do_assert(self, st, fr, t):
         st.ctx.origin = fr.fn['path']
+        st.ctx.origin_stack = tuple(f_.fn['path'] for f_ in st.frames)
         cond = self.operand(st, fr, t['cond'])
         expected = t['expected']
         b = cond.b if isinstance(cond, BoolV) else None
@@ -2430,6 +2496,7 @@ class Interp:
 
     def finish_model(self, st, fr, t, out):
         st.ctx.origin = fr.fn['path']
+        st.ctx.origin_stack = tuple(f_.fn['path'] for f_ in st.frames)
         """out: a value | ('panic', msg) | ('fork', [(B or None, value_or_thunk)])"""
         if isinstance(out, tuple) and out and out[0] == 'panic':
             key = 'panic@%s#%s' % (fr.fn['path'], self.site_ordinal(fr, fr.bb))
